@@ -206,10 +206,18 @@ def Conn.recv (step : S → RawFrame → S × Option R × Bool) (c : Conn S R) (
     { st := t.1, acc := r.2, replies := c.replies ++ t.2.1, alive := t.2.2 }
   else c
 
+/-- the connection each time it comes back for more input (after each received block) -/
+def Conn.trace (step : S → RawFrame → S × Option R × Bool) : Conn S R → List Bytes → List (Conn S R)
+  | _, [] => []
+  | c, x :: xs => Conn.recv step c x :: Conn.trace step (Conn.recv step c x) xs
+
+/-- a fresh connection -/
+def Conn.init (s : S) : Conn S R := { st := s, acc := [], replies := [], alive := true }
+
 /-- the connection as the code runs it: blocks as received, then end-of-stream -/
 def serveChunks (step : S → RawFrame → S × Option R × Bool) (close : S → S) (s : S) (cs : List Bytes) :
     S × List R × Ending :=
-  let c := cs.foldl (Conn.recv step) { st := s, acc := [], replies := [], alive := true }
+  let c := cs.foldl (Conn.recv step) (Conn.init s)
   finish close (c.st, c.replies, c.alive) c.acc
 
 end
